@@ -75,7 +75,9 @@ def run(tier, seed):
     aer = S("Barley", "Clay", seed=seed + 32, seasons=2, lead=20, regime="wet")
     # (a dated schedule with events before the start and after both end dates)
     schd = S("Maize", "SandyLoam", seed=seed + 33, seasons=2, irr={"method": 3, "schedule": [["2001/03/01", 20], ["2001/03/20", 20], ["2001/05/10", 30], ["2001/06/15", 25], ["2002/06/01", 35], ["2004/07/01", 40]]})
-    for sc in cal[:3] + anyc[2:4] + [sparse, gwvar, aer, schd]:
+    # (a CO2 level held constant at that of the first simulated year)
+    cconst = S("Barley", "Loam", seed=seed + 34, seasons=2, co2={"constant_conc": True})
+    for sc in cal[:3] + anyc[2:4] + [sparse, gwvar, aer, schd, cconst]:
         a = len(jobs)
         jobs.append({"kind": "plain", "scenario": sc})
         for ext in ([1, 200, 365] if tier == "thorough" else [1, 365]):
